@@ -89,6 +89,7 @@ func (m *manager) Run() (err error) {
 	if numLoops == len(m.polls) {
 		return nil
 	}
+	vp(vpPmRun, unsafe.Pointer(m), 1, int64(len(m.polls)))
 	polls := make([]Poll, numLoops)
 	if numLoops < len(m.polls) {
 		// shrink polls
